@@ -130,22 +130,29 @@ func runNative(id, hdir string, unit Unit, files []string, timeout time.Duration
 	listFile := filepath.Join(tmp, "files.txt")
 	os.WriteFile(listFile, []byte(strings.Join(files, "\n")+"\n"), 0o644)
 
-	ctx, cancel := context.WithTimeout(context.Background(), timeout)
-	defer cancel()
-	args := []string{"test", "-vet=off", "-count=1", "-overlay", ovFile, "-run", "^TestVerifReplay$", "-timeout", "12m", "-v"}
+	// build the test binary, then run it ourselves (the package directory may exist only in the overlay)
+	bin := filepath.Join(tmp, "replay.test")
+	args := []string{"test", "-c", "-vet=off", "-overlay", ovFile, "-o", bin}
 	if unit.Tags != "" {
 		args = append(args, "-tags="+unit.Tags)
 	}
 	args = append(args, "./"+unit.Dir)
-	cmd := exec.CommandContext(ctx, goBin, args...)
-	cmd.Dir = repoDir
-	cmd.Env = append(goEnv(), "VERIF_REPLAY_LIST="+listFile)
-	out, err := cmd.CombinedOutput()
-	if bytes.Contains(out, []byte("[build failed]")) || bytes.Contains(out, []byte("[setup failed]")) {
-		return out, fmt.Errorf("native harness build failed:\n%s", tail(out, 2000))
+	build := exec.Command(goBin, args...)
+	build.Dir = repoDir
+	build.Env = goEnv()
+	if out, err := build.CombinedOutput(); err != nil {
+		return out, fmt.Errorf("native harness build failed: %v\n%s", err, tail(out, 3000))
 	}
+	ctx, cancel := context.WithTimeout(context.Background(), timeout)
+	defer cancel()
+	cmd := exec.CommandContext(ctx, bin, "-test.run", "^TestVerifReplay$", "-test.v", "-test.timeout", "12m")
+	cmd.Dir = filepath.Join(repoDir, unit.Dir)
+	if st, err := os.Stat(cmd.Dir); err != nil || !st.IsDir() {
+		cmd.Dir = repoDir
+	}
+	cmd.Env = append(goEnv(), "VERIF_REPLAY_LIST="+listFile)
+	out, _ := cmd.CombinedOutput()
 	// a failing/crashing test is not an error of the machinery: results are parsed from the output
-	_ = err
 	return out, nil
 }
 
